@@ -187,6 +187,21 @@ check("C16",
       "Trusts TLC, the stdout row parser of harness/c16.py (rows identified by their unique daughters) and Fraction arithmetic.",
       "DESIGN.md section 5, C16")
 
+AMP_NOTE = ("Trusts TLC and harness/ampio.py: abstract names are concretised to AmpGen-style names with fixed PDG ids / spin "
+            "classes (reference table in the harness); inside a worker process each distinct name is resolved once by the real "
+            "particle_from_string_name and re-used (the installed particle package needs ~0.5 s per fuzzy search).")
+check("C17",
+      "TLA+ specification of the reader (spec/AmpGen.tla: ExpandTree = ordered cartesian expansion, NAmp = counting recursion, "
+      "CouplingKind) with count = sum of products model-checked by TLC; real read_ampgen results validated by TLC",
+      "TLC checks on every ordered choice of lines from a pool (full, partial, nested, alternative sub-lines, tags) x option "
+      "absent/0/1 that the expansion has exactly sum-of-products amplitudes and that each is a complete tree. Every file of that "
+      "universe (quick: a window) and random files (depth-3 nesting, 0..3 alternatives per resonance, parameter / constant "
+      "lines, the other option and ignored line kinds, comments, blank lines) are rendered and read by the three reader "
+      "classes; TLC judges event type, amplitude trees with tags in file order, polar vs cartesian coupling (the harness "
+      "classifies the observed complex number against both readings at 1e-12), parameter and constant tables, and that no "
+      "text raises.",
+      AMP_NOTE, "DESIGN.md section 5, C17")
+
 ALL = [f"C{i:02d}" for i in range(1, 21)]
 
 
